@@ -2,7 +2,7 @@
    The provider of a case is a closed-form stub whose value depends on every argument of the
    accessor call and of the evaluate() call; harness/c03_impl.py implements the same stub in Python
    for the real models, so a wrong species, charge, donor, density or argument order changes the value. *)
-Require Import Cherab.Common.Qx Cherab.Model.C03_Passive Cherab.Model.C03_Brems Cherab.Model.C03_Gaunt.
+Require Import Cherab.Common.Qx Cherab.Model.C03_Passive Cherab.Model.C03_Brems Cherab.Model.C03_Gaunt Cherab.Model.C03_Quadrature Cherab.Model.C03_Cache.
 From Coq Require Import Qabs.
 Open Scope Q_scope.
 
@@ -174,34 +174,62 @@ Definition bremsfn_keys_ok (C : consts) (sq ex : list (Q * Q)) (te wvl : Q) : bo
   has_key sq 3 && has_key sq (2 * c_me C / (c_pi C * c_e C)) && has_key sq te &&
   has_key ex (- exp_factor C / (te * wvl)).
 
-(* ---- Bremsstrahlung.emission: the integrator oracle is instantiated by a quadrature rule ---------------
-   integ f a b = h * sum_k w_k * rnd_P (f (m + h x_k)),  h = (b - a)/2, m = (a + b)/2, with the nodes x_k and weights w_k
-   handed over by the harness (8-point Gauss-Legendre) and every function value rounded down to a multiple of 2^-P
-   (P is chosen by the harness about 80 bits below the magnitude of the samples).  Any integrator is a legitimate
-   instance of the model's oracle; this one is cheap to run in exact arithmetic.  The function values themselves are
-   the model's (brems_function), evaluated exactly. *)
+(* ---- Bremsstrahlung.emission with the modelled integrator -----------------------------------------------------
+   The integrator is the model of GaussianQuadrature.evaluate (Model/C03_Quadrature.v) run on the caches of roots and
+   weights handed over by the harness (scipy.special.roots_legendre, the source of the code's own caches), the code's
+   min_order and relative tolerance, and the cache truncated a few orders above the order at which the code converged.
+   The integrand is the model's brems_function evaluated exactly at the exact node and then rounded down to a multiple
+   of 2^-P (rnd; P is chosen by the harness about 80 bits below the magnitude of the samples; C03_rnd_bounds). *)
 From Coq Require Import Qround.
 Definition rnd (P : Z) (y : Q) : Q :=
   if Z.leb 0 P then Qmake (Qfloor (y * inject_Z (2 ^ P))) (Z.to_pos (2 ^ P))
   else inject_Z (Qfloor (y / inject_Z (2 ^ (- P))) * 2 ^ (- P)).
+Definition gq_integ (P : Z) (roots weights : list Q) (mn mx : nat) (rtol : Q) (f : Q -> Q) (a b : Q) : Q :=
+  gq_evaluate roots weights mn mx rtol (fun x => rnd P (f (Qred x))) a b.
+(* kept for reference: a fixed 8-point rule (the comparator of the earlier rounds) *)
 Definition gl_integ (P : Z) (nodes weights : list Q) (f : Q -> Q) (a b : Q) : Q :=
   let h := Qred ((b - a) / 2) in let m := Qred ((a + b) / 2) in
   Qred (h * fold_left (fun acc xw => Qred (acc + snd xw * rnd P (f (Qred (m + h * fst xw))))) (combine nodes weights) 0).
 
-Definition check_brems (tol : Q) (P : Z) (C : consts) (sq ex : list (Q * Q)) (g0 g1 g2 g3 : Q) (nodes weights : list Q)
+(* the caches handed over are Gauss-Legendre-like: weights non-negative, nodes inside [-1, 1], the weights of every
+   order mn .. mx sum to 2 within 2^-48 *)
+Fixpoint gq_caches_ok_from (roots weights : list Q) (order ibegin fuel : nat) : bool :=
+  match fuel with
+  | O => true
+  | S m => Qle_bool (Qabs (Qsum (slice weights ibegin order) - 2)) (pow2 (-48)) &&
+           Nat.eqb (length (slice roots ibegin order)) order &&
+           gq_caches_ok_from roots weights (S order) (ibegin + order) m
+  end.
+Definition gq_caches_ok (roots weights : list Q) (mn mx : nat) : bool :=
+  forallb (fun w => Qle_bool 0 w) weights && forallb (fun r => Qle_bool (Qabs r) 1) roots &&
+  gq_caches_ok_from roots weights mn 0 (S mx - mn).
+
+Definition check_brems (tol : Q) (P : Z) (C : consts) (sq ex : list (Q * Q)) (g0 g1 g2 g3 : Q)
+           (roots weights : list Q) (mn mx : nat) (rtol : Q)
            (ne te : Q) (comp : composition) (minw maxw : Q) (nbins : nat) (i_bins : list Q) (i_zs : list Q) : bool :=
   let gf := gstub g0 g1 g2 g3 in
   let delta := (maxw - minw) / inject_Z (Z.of_nat nbins) in
-  sqrt_tab_ok sq &&
-  match brems_emission C (oracle sq) (oracle ex) gf (gl_integ P nodes weights) ne te comp minw delta nbins with
-  | Some bins =>
-    (* the stub Gaunt factor is positive, so all terms of a bin have one sign: tolerance relative to the bin itself *)
-    Qle_bool 0 g0 && Qle_bool 0 g1 && Qle_bool 0 g2 && Qle_bool 0 g3 &&
-    forallb2 (fun mb ib => Qle_bool (Qabs (mb - ib)) (tol * Qabs mb + tiny)) bins i_bins &&
-    (* the Gaunt factor was asked for exactly the charges of the species that take part *)
-    let zs := map (fun s => zq (s_charge s)) (filter (fun s => Z.ltb 0 (s_charge s) && pos (s_dens s)) comp) in
-    forallb (fun z => existsb (Qeq_bool z) i_zs) zs && forallb (fun z => existsb (Qeq_bool z) zs) i_zs
-  | None => forallb (fun b => Qeq_bool b 0) i_bins && match i_zs with [] => true | _ => false end
+  let live := filter (fun s => Z.ltb 0 (s_charge s) && pos (s_dens s)) comp in
+  let zs := map (fun s => zq (s_charge s)) live in
+  sqrt_tab_ok sq && gq_caches_ok roots weights mn mx &&
+  if Qle_bool ne 0 || Qle_bool te 0 then
+    (* early return *)
+    forallb (fun b => Qeq_bool b 0) i_bins && match i_zs with [] => true | _ => false end
+  else match live with
+  | [] =>
+    (* no ion takes part: every bin is zero whatever order the loop stops at (C03_brems_vacuum_zero); the code then
+       runs to max_order without ever asking for the Gaunt factor *)
+    forallb (fun b => Qeq_bool b 0) i_bins && match i_zs with [] => true | _ => false end
+  | _ =>
+    match brems_emission C (oracle sq) (oracle ex) gf (gq_integ P roots weights mn mx rtol) ne te comp minw delta nbins with
+    | Some bins =>
+      (* the stub Gaunt factor is positive, so all terms of a bin have one sign: tolerance relative to the bin itself *)
+      Qle_bool 0 g0 && Qle_bool 0 g1 && Qle_bool 0 g2 && Qle_bool 0 g3 &&
+      forallb2 (fun mb ib => Qle_bool (Qabs (mb - ib)) (tol * Qabs mb + tiny)) bins i_bins &&
+      (* the Gaunt factor was asked for exactly the charges of the species that take part *)
+      forallb (fun z => existsb (Qeq_bool z) i_zs) zs && forallb (fun z => existsb (Qeq_bool z) zs) i_zs
+    | None => false
+    end
   end.
 
 (* ---- InterpolatedFreeFreeGauntFactor.evaluate ---------------------------------------------------------------
@@ -247,3 +275,21 @@ Definition consts_ref : list (Q * Z) := [
 Definition consts_all_wf (gen : list Q) : bool :=
   Nat.eqb (length gen) (length consts_ref) &&
   forallb (fun gr => relclose (pow2 (snd (snd gr))) (fst gr) (fst (snd gr))) (combine gen consts_ref).
+
+(* literals the model copies from the sources, re-read on every run (coq/Gen/C03/Consts.v):
+   the hydrogen isotopes of TotalRadiatedPower in the order of the loop (ids of hydrogen, deuterium, tritium), EULER_GAMMA
+   of gaunt.pyx, and the documented defaults of the integrator a Bremsstrahlung model gets (min_order 1, max_order 50,
+   relative tolerance 1e-5) *)
+Definition hyd_documented : list Z := [0; 1; 2]%Z.
+Definition gq_rtol_documented : Q := Qmake 5902958103587057 590295810358705651712.   (* the double 1e-5 *)
+Definition source_tables_wf (hyd : list Z) (euler : Q) (mn mx : nat) (rtol : Q) : bool :=
+  zlist_eqb hyd hyd_documented && Qeq_bool euler euler_gamma && Nat.eqb mn 1 && Nat.eqb mx 50 && Qeq_bool rtol gq_rtol_documented.
+
+(* ---- sequences on one instance: the populate / re-populate decisions come from the cache state machine
+   (Model/C03_Cache.v), fed with what was done to the objects between two evaluations and with the model's own
+   verdict on whether the populate succeeds ---- *)
+Definition line_populate_ok (kind : Z) (l : line) (comp : composition) : bool :=
+  match comp_get comp (l_elem l) (if Z.eqb kind 1 then l_charge l else (l_charge l + 1)%Z) with Some _ => true | None => false end.
+Definition total_populate_ok (e c znum : Z) (comp : composition) : bool :=
+  Z.leb 0 c && Z.ltb c znum &&
+  match comp_get comp e c, comp_get comp e (c + 1) with Some _, Some _ => true | _, _ => false end.
